@@ -223,7 +223,7 @@ fn main() {
     let c10 = «ty:[int]|[1, 2] as [int]»;
     let c11 = «ty:?int|?1 as ?int»;
     let c12 = «ty:float|(«opd:int|i» + «opd:int|1») as float»;
-    let bad0 = «ty:float|«mut:cast|i as float¦"s" as int¦[1] as [str]¦i as str¦b as str¦f as [float]»»;
+    let bad0 = «ty:float|«mut:cast|i as float¦"s" as int¦[1] as [str]¦f as [float]¦"s" as [str]»»;
     let fun = fn() -> int { 1 };
     let bad1 = «ty:int|«mut:cast|fun()¦(fun as fn() -> int)()»»;
     let bad2 = «ty:{?}|«mut:cast|new { a: 1 } as { ? }¦[1] as { ? }¦1 as { ? }»»;
@@ -386,7 +386,7 @@ fn main() {
 $A = { v: int };
 $B = { w: str };
 
-«mut:singleton|fn ok(a: $A, b: $B, n: int) -> int {
+«mut?:singleton|fn ok(a: $A, b: $B, n: int) -> int {
     a.v + b.w.len() + n
 }¦fn ok(a: $A, n: int, b: $B) -> int {
     a.v + b.w.len() + n
@@ -502,7 +502,7 @@ event fn annotated(«mut:trigger|e: int¦e: bool¦¦e: int, f: int») {
 
 event fn self_trigger(n: int) {
     println(n);
-    «mut:trigger|¦trigger self_trigger at minute(1);»
+    «mut?:trigger|¦trigger self_trigger at minute(1);»
 }
 
 fn main() {
@@ -532,7 +532,7 @@ fn main() {
     let r = «ty:int|h.«id:field|join»(«args:0|»)»;
     let h2 = spawn idle();
     h2.join();
-    let h3 = spawn sink(«mut:spawn|1¦fn() -> int { 1 }¦worker¦idle»);
+    let h3 = spawn sink(«mut:spawn|1¦fn() -> int { 1 }¦fn(a: int) { println(a); }»);
     h3.join();
     spawn println(«mut:spawn|"detached"¦fn() { }»);
     let n = «ty:int|«opd:int|r» + «opd:int|1»»;
@@ -859,7 +859,7 @@ event fn tick(elapsed: int) {
 #[allow_unused]
 fn unused_helper() -> int { 1 }
 
-«mut:annotation|#[allow_unused]¦#[no_such_annotation]»
+«mut?:annotation|#[allow_unused]¦#[no_such_annotation]»
 fn another() {}
 
 pub fn public_api(n: int) -> int {
